@@ -454,7 +454,7 @@ def read_arg_required(
             n_required -= 1
             continue
         elif src.hasNext() and n_required > 0 \
-                and src.peek().category != TC.Comment:
+                and src.peek().category not in (TC.Comment, TC.GroupEnd):
             next_token = next(src)
             if next_token.category == TC.Escape:
                 name, _ = read_command(src, 0, 0, tolerance=tolerance, mode=mode)
